@@ -3,7 +3,7 @@ on every Ok path after it (follow), or before it (precede).  Rows live in
 rules/follow.json and are grouped by rule id (R-HDR, R-MARK, R-BLANK, R-REUSE...)."""
 import re
 
-from core import Finding, RuleResult, view
+from core import Finding, RuleResult, atoms_match, view, wild
 from prov import Prov
 
 
@@ -17,7 +17,8 @@ def _match_call(pr, c, m):
         i = int(idx)
         if i >= len(c.term["args"]):
             return False
-        if not re.search(rx, pr.operand(c.term["args"][i])):
+        ap = pr.operand(c.term["args"][i])
+        if not (re.search(rx, ap) or re.search(rx, wild(ap))):
             return False
     return True
 
@@ -52,7 +53,7 @@ def make(rule_id, pid=None):
                 if trig.get("when"):
                     from prov import guards as _guards
                     g_ = _guards(ctx, f)
-                    triggers = [c for c in triggers if all(any(re.search(rx, a) for a in g_.atoms_at(("t", c.bb))) for rx in trig["when"])]
+                    triggers = [c for c in triggers if all(atoms_match(rx, g_.atoms_at(("t", c.bb))) for rx in trig["when"])]
             if not triggers:
                 res.gone.append(row["id"])
                 continue
